@@ -164,3 +164,30 @@ Definition subhourly_path (scale exact : bool) (rs : list reading) (bs : list Z)
 Definition day_reference (g : list reading) : option Q :=
   let p := present g in
   if 2 * zlen p <=? zlen g then None else Some (qsum p / inject_Z (zlen p))%Q.
+
+(* ------------------------------------------------------------------------------------------------ *)
+(* 3. the frame the classes receive, and _set_data's zero rule                                        *)
+(* ------------------------------------------------------------------------------------------------ *)
+
+(* one row of the input frame: stamp, observed (usage), temperature *)
+Definition frow := (Z * option Q * option Q)%type.
+Definition f_stamp (r : frow) : Z := fst (fst r).
+Definition f_obs (r : frow) : option Q := snd (fst r).
+Definition f_temp (r : frow) : option Q := snd r.
+
+(* "Electricity data with 0 meter values are converted to NaNs": df.loc[df["observed"] == 0, "observed"] = NaN.
+   The rule applies to the USAGE column of electricity meters only: a temperature of exactly 0.0 F is a reading,
+   and a gas usage of exactly 0 stays 0. *)
+Definition zero_cell (v : option Q) : option Q :=
+  match v with Some x => if Qeq_bool x 0 then None else Some x | None => None end.
+Definition set_data (elec : bool) (fr : list frow) : list frow :=
+  if elec then map (fun r => (f_stamp r, zero_cell (f_obs r), f_temp r)) fr else fr.
+
+Definition temps_of (fr : list frow) : list reading := map (fun r => (f_stamp r, f_temp r)) fr.
+Definition usage_of (fr : list frow) : list reading := map (fun r => (f_stamp r, f_obs r)) fr.
+
+(* the temperature side of the classes, from the frame *)
+Definition class_hourly (elec billing : bool) (tol : option Z) (midx : list Z) (fr : list frow) : temp_result :=
+  hourly_path billing tol midx (temps_of (set_data elec fr)).
+Definition class_subhourly (elec scale exact : bool) (fr : list frow) (bs : list Z) : list (Z * trow) :=
+  subhourly_path scale exact (temps_of (set_data elec fr)) bs.
